@@ -155,10 +155,16 @@ func (r *run) doPod(p keys.PodIn, op string) {
 				ko.KeyInDB, ko.AppTypePrefix, ko.Namespace, ko.AppName, ko.PodName, ko.PoolName,
 				pk.AppTypePrefix, pk.Namespace, pk.AppName, pk.PodName, pk.PoolName), []string{op})
 		}
-		at := strings.TrimPrefix(keys.RealAT(ko.AppTypePrefix), "=")
-		if at == "" || keys.RealATP(unenc(at)) != keys.Enc(ko.AppTypePrefix) {
-			r.violation("apptype-not-invertible", fmt.Sprintf("prefix %q is listed as app type %q which maps back to %s", ko.AppTypePrefix, unenc(at),
-				keys.RealATP(unenc(at))), []string{op})
+		at := unenc(strings.TrimPrefix(keys.RealAT(ko.AppTypePrefix), "="))
+		if back := keys.RealATP(at); at == "" || back != keys.Enc(ko.AppTypePrefix) {
+			kind, has := p.Kind()
+			owner := "no owner"
+			if has {
+				owner = fmt.Sprintf("owner kind %q", kind)
+			}
+			r.violation("apptype-not-invertible", fmt.Sprintf("pod %s/%s with %s: FormatKey uses app type prefix %q (key %q); GetAppType lists it as %q; "+
+				"GetAppTypePrefix(%q) gives %q, not %q, so the listed entry cannot be released", p.NS, p.Name, owner, ko.AppTypePrefix, ko.KeyInDB,
+				at, at, unenc(strings.TrimPrefix(back, "=")), ko.AppTypePrefix), []string{op})
 		}
 	}
 	// oracle ("distinct pods always map to distinct allocation keys"): any kinds, any pool
@@ -285,7 +291,9 @@ func (r *run) doKind(kind string) {
 	r.emit("at "+keys.Enc(kind), keys.RealAT(kind))
 	back := keys.RealATP(unenc(strings.TrimPrefix(at, "=")))
 	if back != tp {
-		r.violation("apptype-not-invertible", fmt.Sprintf("kind %q: prefix %s, listed type %s, which maps back to %s", kind, tp, at, back), []string{op})
+		r.violation("apptype-not-invertible", fmt.Sprintf("kind %q: GetAppTypePrefix(%q) = %q; GetAppType lists that prefix as %q; GetAppTypePrefix(%q) = %q, "+
+			"not the prefix the key was built with", kind, kind, unenc(strings.TrimPrefix(tp, "=")), unenc(strings.TrimPrefix(at, "=")),
+			unenc(strings.TrimPrefix(at, "=")), unenc(strings.TrimPrefix(back, "="))), []string{op})
 	}
 	r.rep.Hit("kind." + kindClass(kind))
 	r.end(c, kindClass(kind) == "custom")
@@ -429,7 +437,7 @@ func (r *run) doWorld(spec keys.WorldSpec, shrink bool) {
 func shrinkWorld(spec keys.WorldSpec, sig string, rep *hx.Report) (keys.WorldSpec, bool) {
 	scratch := hx.NewReport("C11", "", 0, "")
 	try := func(recs []keys.RecSpec) (keys.WorldSpec, bool) {
-		s := keys.WorldSpec{NIPs: len(recs) + 1, Sizes: []string{"", "1"}, Pages: 0}
+		s := keys.WorldSpec{NIPs: len(recs) + 1, Sizes: []string{"", "1"}, Pages: 0, Batch: spec.Batch}
 		for i, r := range recs {
 			r.IPIdx = i
 			s.Recs = append(s.Recs, r)
@@ -447,7 +455,7 @@ func shrinkWorld(spec keys.WorldSpec, sig string, rep *hx.Report) (keys.WorldSpe
 			return s, true
 		}
 	}
-	if len(spec.Recs) <= 12 {
+	if len(spec.Recs) <= 12 || strings.HasPrefix(sig, "batch-") {
 		for i := range spec.Recs {
 			for j := i + 1; j < len(spec.Recs); j++ {
 				if s, ok := try([]keys.RecSpec{spec.Recs[i], spec.Recs[j]}); ok {
@@ -690,7 +698,7 @@ func (r *run) generate() {
 
 func randomWorld(r *run, nips, nrecs int, sizes []string, pages int) keys.WorldSpec {
 	rng := r.e.Rng
-	spec := keys.WorldSpec{NIPs: nips, Sizes: sizes, Pages: pages}
+	spec := keys.WorldSpec{NIPs: nips, Sizes: sizes, Pages: pages, Batch: 2 + rng.Intn(3)}
 	perm := rng.Perm(nips)
 	used := map[string]bool{}
 	nss := []string{"ns1", "ns2", "a", keys.Label(rng, 5)}
